@@ -33,7 +33,8 @@ CLAIMS = {
     "C02": dict(
         level="proof", ref="DESIGN.md 5 C02",
         text="Each of the 42 generated state functions is symbolically executed on the real source (loop-free, all "
-             "matcher and look-ahead outcomes, EOF / non-EOF token, both error modes: a complete analysis); the "
+             "matcher and look-ahead outcomes, EOF / non-EOF token, both error modes: a complete analysis), and so is "
+             "the dispatcher match_token for every state value (it calls that state's function and nothing else); the "
              "resulting table is compared transition by transition with the five sibling parsers and shown bisimilar "
              "(accepted language, emitted rule nesting, tag attachment by look-ahead) to a transducer derived from "
              "gherkin.berp; lookahead_k and parse are proved against contracts with loop invariants and variants; the "
@@ -126,8 +127,8 @@ CLAIMS = {
         note=COMMON_NOTE),
     "C14": dict(
         level="other", ref="DESIGN.md 5 C14",
-        text="Proved: error constructors (message = '(line:column): ' + text, expected list joined, trimmed line "
-             "quoted, location fallbacks), add_error (duplicates once, cap at eleven), parse (rejected => composite "
+        text="Proved: error constructors incl. UnexpectedToken/UnexpectedEOF (message = '(line:column): ' + text, expected "
+             "list joined by ', ', the line quoted trimmed on both sides, location fallbacks), add_error (duplicates once, cap at eleven), parse (rejected => composite "
              "error / first error in stop mode, never a result), tag-with-whitespace and unknown-dialect errors with "
              "their columns, ragged-table error at the first deviating row. F: per state the error tail keeps the "
              "state, stop mode raises what collecting adds, the 42 expected lists equal those of the five sibling "
@@ -136,10 +137,11 @@ CLAIMS = {
         note=COMMON_NOTE + "; GherkinLine.tags bounded only"),
     "C15": dict(
         level="other", ref="DESIGN.md 5 C15",
-        text="Proved: reset restores the matcher's default dialect, indent and separator; the write sets (modifies "
-             "frames) of every matcher, scanner and compiler function, in particular compile and its helpers do not "
-             "modify the document and the rule-level background list is a new list; parse begins with reset of "
-             "builder and matcher. Independence from earlier and interleaved parses is then a non-interference "
+        text="Proved: reset restores the matcher's default dialect, indent and separator, AstBuilder.reset empties "
+             "comments and counter; the frame obligations (cells not listed in `modifies` are unchanged) of all 100 "
+             "functions under contract are discharged by this check, in particular compile and its helpers do not "
+             "modify the document, the rule-level background list is a new list, and GherkinEvents.enum keeps its "
+             "parser, compiler and options objects; parse begins with reset of builder and matcher. Independence from earlier and interleaved parses is then a non-interference "
              "argument (M: no module-level mutable state except the dialect table, which is never written -- checked "
              "by an AST scan) and is exercised by the bounded history/interleaving harness.",
         note=COMMON_NOTE + "; interleavings are M + bounded"),
